@@ -173,6 +173,72 @@ func (d *rdb) stmtWithLogCrashPoints(q string, probes []string) string {
 	return res
 }
 
+// withFlushCrashPoints runs f (an operation that ends in a page flush) while capturing a crash
+// image before every page write and before the header write; every image is then recovered and
+// inspected.  alloc = pages were allocated since the header on disk was written.
+func (d *rdb) withFlushCrashPoints(kind string, f func()) {
+	type img struct {
+		j   int
+		dir string
+	}
+	var images []img
+	var order []string
+	alloc := 0
+	if hdr := d.rs.VerifHeader(); hdr.NextFree > diskNextFree("data/"+d.name+"/tbl") {
+		alloc = 1
+	}
+	if kind == "create" {
+		alloc = 1
+	}
+	storage.VerifSetHook(func(ev string, arg uint64) {
+		switch ev {
+		case "page.write":
+			images = append(images, img{len(order), d.captureImage(-1)})
+			order = append(order, fmt.Sprint(arg))
+		case "hdr.write":
+			images = append(images, img{len(order), d.captureImage(-1)})
+		}
+	})
+	f()
+	storage.VerifSetHook(nil)
+	if len(order) == 0 {
+		for _, im := range images {
+			os.RemoveAll(im.dir)
+		}
+		return
+	}
+	seen := map[int]bool{}
+	for _, im := range images {
+		if seen[im.j] || d.rs == nil {
+			os.RemoveAll(im.dir)
+			continue
+		}
+		seen[im.j] = true
+		d.cfg.tr.Op("fimage %d %s alloc=%d order=%s", im.j, kind, alloc, strings.Join(order, ","))
+		d.guard(func() string { d.inspectImage(im.dir, nil); return "" })
+		d.cfg.st.Inc("flush-crash-images")
+		d.cfg.st.Inc(fmt.Sprintf("flush-crash-images.%s.alloc%d", kind, alloc))
+	}
+}
+
+// diskNextFree reads the allocation frontier from the header in the data file.
+func diskNextFree(path string) uint64 {
+	f, err := os.Open(path)
+	if err != nil {
+		return 0
+	}
+	defer f.Close()
+	b := make([]byte, 28)
+	if _, err := io.ReadFull(f, b); err != nil {
+		return 0
+	}
+	var v uint64
+	for i := 0; i < 8; i++ {
+		v |= uint64(b[12+i]) << (8 * uint(i))
+	}
+	return v
+}
+
 func hexAll(l []string) []string {
 	out := make([]string, len(l))
 	for i, s := range l {
@@ -322,7 +388,7 @@ func (d *rdb) recoverDB() string {
 }
 
 func runInitStorage() string {
-	ctx, cancel := context.WithTimeout(context.Background(), 20*time.Second)
+	ctx, cancel := context.WithTimeout(context.Background(), 10*time.Second)
 	defer cancel()
 	cmd := exec.CommandContext(ctx, os.Args[0], "initstorage")
 	var stderr bytes.Buffer
@@ -663,6 +729,12 @@ func runDB(cfg *config) {
 			id++
 			runLogCrashes(cfg, id, r.Fork())
 		}
+	case "c04":
+		n := 8 * cfg.scale
+		for i := 0; i < n; i++ {
+			id++
+			runFlushCrashes(cfg, id, r.Fork())
+		}
 	case "c02":
 		n := 12 * cfg.scale
 		for i := 0; i < n; i++ {
@@ -692,6 +764,10 @@ func replayDB(cfg *config, id int, lines []string) {
 		case "image", "fimage":
 			// produced by the statement / flush before it
 		case "stmt":
+			if li+1 < len(lines) && strings.HasPrefix(lines[li+1], "fimage ") {
+				d.withFlushCrashPoints(strings.Fields(lines[li+1])[2], func() { d.stmt(unhex(f[1])) })
+				continue
+			}
 			if li+1 < len(lines) && strings.HasPrefix(lines[li+1], "image ") {
 				var probes []string
 				for _, h := range strings.Fields(lines[li+1])[3:] {
@@ -720,12 +796,20 @@ func replayDB(cfg *config, id int, lines []string) {
 		case "select":
 			d.selectAll(unhex(f[1]))
 		case "flush":
+			if li+1 < len(lines) && strings.HasPrefix(lines[li+1], "fimage ") {
+				d.withFlushCrashPoints("flush", func() { d.flush() })
+				continue
+			}
 			d.flush()
 		case "dump":
 			d.dump()
 		case "roots":
 			d.roots()
 		case "reopen":
+			if li+1 < len(lines) && strings.HasPrefix(lines[li+1], "fimage ") {
+				d.withFlushCrashPoints("close", func() { d.reopen() })
+				continue
+			}
 			d.reopen()
 		case "crash":
 			d.crash()
@@ -899,6 +983,55 @@ func runLogCrashes(cfg *config, id int, r *hx.Rng) {
 		}
 	}
 	if d.rs != nil {
+		d.dump()
+	}
+	cfg.st.Seen(fmt.Sprint(id), true)
+}
+
+// runFlushCrashes (C04): a history in which every flush (explicit, CREATE TABLE, close) is crashed
+// before each of its page writes and before the header write.
+func runFlushCrashes(cfg *config, id int, r *hx.Rng) {
+	cfg.tr.Case(id)
+	d := &rdb{cfg: cfg, name: fmt.Sprintf("g%d", id)}
+	defer d.close()
+	d.createdb()
+	var tables []*gtable
+	mk := func() {
+		t := genSchema2(r, len(tables)+1, 4)
+		d.withFlushCrashPoints("create", func() {
+			if d.stmt(createText(t)) == "ok" {
+				tables = append(tables, t)
+			}
+		})
+	}
+	mk()
+	for s, n := 0, r.Range(4, 14); s < n && d.rs != nil && len(tables) > 0; s++ {
+		t := tables[r.Intn(len(tables))]
+		switch x := r.Intn(10); {
+		case x < 6:
+			var rows [][]interface{}
+			for k, m := 0, r.Range(1, 6); k < m; k++ {
+				rows = append(rows, genRowValues(r, t, false))
+			}
+			d.insertv(t.name, nil, rows)
+		case x < 7:
+			d.stmt("DELETE FROM " + t.name + " WHERE " + genWhere(r, t))
+		case x < 8:
+			d.stmt("UPDATE " + t.name + " SET " + genSet(r, t) + " WHERE " + genWhere(r, t))
+		case x < 9 && len(tables) < 3:
+			mk()
+		}
+		if r.Chance(1, 2) {
+			d.selectEvery()
+			if r.Chance(1, 4) {
+				d.withFlushCrashPoints("close", func() { d.reopen() })
+			} else {
+				d.withFlushCrashPoints("flush", func() { d.flush() })
+			}
+		}
+	}
+	if d.rs != nil {
+		d.selectEvery()
 		d.dump()
 	}
 	cfg.st.Seen(fmt.Sprint(id), true)
